@@ -256,10 +256,16 @@ func (m *Minter) Mint(spec ReqSpec, s time.Time, skew time.Duration, r *core.Rng
 	for _, a := range etp.CAddr {
 		tr.Addrs = append(tr.Addrs, a.Addr)
 	}
+	for _, d := range ds {
+		if strings.HasPrefix(d.Kind, "pac-") {
+			spec.PAC = strings.TrimPrefix(d.Kind, "pac-")
+		}
+	}
 	if spec.PAC != "" && m.PACFor != nil {
-		ad, valid := m.PACFor(spec, tr.SealKey, r)
-		etp.AuthData = ad
-		tr.HasPAC, tr.PACValid = true, valid
+		if ad, valid := m.PACFor(spec, tr.SealKey, r); ad != nil {
+			etp.AuthData = ad
+			tr.HasPAC, tr.PACValid = true, valid
+		}
 	}
 	tr.Flags, tr.TktCName, tr.TktCRealm = etp.Flags, cname.Names, spec.CRealm
 	if hasDefect(ds, "ticket-usage") != nil {
@@ -536,4 +542,64 @@ func Accept(tr *Truth, st ServiceSettings, kt *KeytabModel, now time.Time, repla
 		reject("pac-invalid")
 	}
 	return v
+}
+
+// StdPACFor returns a PACFor hook that re-signs the captured sample PAC under the ticket's
+// service key (valid), or damages it in one named way:
+// flipped (a signed byte changed after signing), wrongkey (signed under another key), sigflipped
+// (a byte of the server signature changed), truncated (the PAC torn), nosig (server signature
+// buffer removed), noinfo (logon info buffer removed).
+func StdPACFor(sample []byte, seed uint64) func(spec ReqSpec, svcKey rk.EncryptionKey, r *core.Rng) ([]rk.AuthDataEntry, bool) {
+	return func(spec ReqSpec, svcKey rk.EncryptionKey, r *core.Rng) ([]rk.AuthDataEntry, bool) {
+		if !rk.PACSignable(int(svcKey.Etype)) {
+			return nil, false // no PAC signature type for this etype (des3): the ticket carries no PAC
+		}
+		bufs, err := rk.ParsePAC(sample)
+		if err != nil {
+			return nil, false
+		}
+		kdcKey := KeyFor(seed, "krbtgt-for-pac", 18)
+		signKey := svcKey
+		if spec.PAC == "wrongkey" {
+			signKey = KeyFor(seed, "not-the-service-key", int(svcKey.Etype))
+		}
+		var use []rk.PACBuffer
+		for _, b := range bufs {
+			if spec.PAC == "noinfo" && b.Type == rk.PACBufLogonInfo {
+				continue
+			}
+			use = append(use, b)
+		}
+		pac, err := rk.SignPAC(use, signKey, kdcKey)
+		if err != nil {
+			return nil, false
+		}
+		valid := false
+		switch spec.PAC {
+		case "valid":
+			valid = true
+		case "flipped":
+			pac[96+r.Intn(500)] ^= 1 << uint(r.Intn(8)) // inside the logon information buffer
+		case "sigflipped":
+			// the server signature is the second last buffer
+			n := len(use) + 2
+			off := int(pac[8+16*(n-2)+8]) | int(pac[8+16*(n-2)+9])<<8
+			pac[off+4+r.Intn(8)] ^= 0x40
+		case "truncated":
+			pac = pac[:r.Range(1, len(pac)-1)]
+		case "nosig":
+			bs, _ := rk.ParsePAC(pac)
+			var keep []rk.PACBuffer
+			for _, b := range bs {
+				if b.Type != rk.PACBufServerSig {
+					keep = append(keep, b)
+				}
+			}
+			pac, _ = rk.BuildPAC(keep)
+		case "wrongkey", "noinfo":
+		default:
+			return nil, false
+		}
+		return rk.WrapPAC(pac), valid
+	}
 }
